@@ -6,9 +6,10 @@
       with at least one live subscriber;
    3. a RemoveMatch(r) is never sent while r has a live subscriber ("nor removed while still in use").
 
-   Live subscribers are counted at the API: a MessageStream holds its rule; a SignalStream holds its signal rule and,
-   for a well-known destination, the NameOwnerChanged rule; a Proxy with a well-known destination holds the
-   NameOwnerChanged rule from its first signal stream until it is dropped ([objs_after]).
+   Live subscribers are counted at the API: a MessageStream together with its clones is one subscriber of its rule,
+   alive until the last of them is dropped; a SignalStream subscribes to its signal rule and, for a well-known
+   destination, to the NameOwnerChanged rule; a Proxy with a well-known destination subscribes to the NameOwnerChanged
+   rule from its first signal stream until it is dropped ([objs_after]).
 
    [item_ok]/[spec_ok] is the executable form evaluated on an observed run: a sequence of completed API calls (and
    "tick"/"idle" pauses), each with the AddMatch/RemoveMatch calls the bus saw while it ran. *)
@@ -36,15 +37,15 @@ Inductive item :=
 | ITick                       (* the executor ran some tasks *)
 | IIdle.                      (* the executor ran until it had nothing left to do *)
 
-Definition objs := list (hid * rule).
+Definition objs := list sub.        (* a subscriber: the objects that make it up (a stream and its clones), and its rule *)
 
 Definition objs_after_op (ob : objs) (o : op) : objs :=
   match o with
-  | OStream h r => ob ++ [(h, r)]
-  | OClone h' h => ob ++ map (fun r => (h', r)) (rules_of h ob)
-  | ODrop h | OAsyncDrop h => filter (fun x => negb (holds h x)) ob
-  | OSignal h p (Some n) sg => (if has_any p ob then ob else ob ++ [(p, n)]) ++ [(h, n); (h, sg)]
-  | OSignal h p None sg => ob ++ [(h, sg)]
+  | OStream h r => ob ++ [([h], r)]
+  | OClone h' h => share h' h ob
+  | ODrop h | OAsyncDrop h => fst (drop_all h ob)
+  | OSignal h p (Some n) sg => (if has_any p ob then ob else ob ++ [([p], n)]) ++ [([h], n); ([h], sg)]
+  | OSignal h p None sg => ob ++ [([h], sg)]
   | OReqName _ _ => ob
   end.
 
@@ -74,12 +75,13 @@ Fixpoint events_okb (es : list ev) (before after : rule -> nat) (new : list ev) 
 Record ost := { o_objs : objs; o_evs : list ev; o_maybe : list rule }.
 Definition ost0 : ost := {| o_objs := []; o_evs := []; o_maybe := [] |}.
 
-(* rules whose removal may still be queued: those of objects dropped (not async-dropped) since the last idle point *)
+(* rules whose removal may still be queued: those of subscribers whose last object was dropped (not async-dropped)
+   since the last idle point *)
 Definition maybe_after (s : ost) (it : item) : list rule :=
   match it with
   | IIdle => []
-  | IOp (ODrop h) => o_maybe s ++ rules_of h (o_objs s)
-  | IOp2 (ODrop h) o2 => o_maybe s ++ rules_of h (o_objs s)
+  | IOp (ODrop h) => o_maybe s ++ snd (drop_all h (o_objs s))
+  | IOp2 (ODrop h) o2 => o_maybe s ++ snd (drop_all h (o_objs s))
   | _ => o_maybe s
   end.
 
@@ -109,11 +111,10 @@ Fixpoint first_bad (k : N) (s : ost) (run : list (item * list ev)) : option N :=
   end.
 
 (* ------------------------------------------------------------------ known deviations of the pinned code *)
-Inductive klass := KCloneUncounted | KNameRulesLeak.
+Inductive klass := KNameRulesLeak.
 
 Definition op_class (o : op) : option klass :=
   match o with
-  | OClone _ _ => Some KCloneUncounted
   | OReqName _ _ => Some KNameRulesLeak
   | _ => None
   end.
@@ -132,5 +133,5 @@ Fixpoint known (its : list item) : option klass :=
   end.
 
 (* the operations outside both classes *)
-Definition plain_op (o : op) : bool := negb (is_clone o) && negb (is_reqname o).
+Definition plain_op (o : op) : bool := negb (is_reqname o).
 Definition any_op (o : op) : bool := true.
